@@ -11,6 +11,7 @@ from __future__ import annotations
 import hashlib
 import json
 import os
+import zlib
 import random
 import shutil
 import stat
@@ -236,7 +237,8 @@ def make_cases(trees, rng, n, exhaustive=False):
             t = {p: {**nd, "x": False} for p, nd in t.items()
                  if nd["k"] == "f" or any(q.startswith(p + "/") and t[q]["k"] == "f" for q in t)}
         cases.append({"id": i, "ws": w, "tgt": t, "avail": sorted(avail), "delete": i % 4 != 3, "hashed": i % 3 != 2, "form": form,
-                      "cls": ["local", "generic"][i % 2], "link": ["copy", "hardlink", "symlink"][i % 3] if i % 7 == 0 else "copy"})
+                      "cls": ["local", "generic"][zlib.crc32(b"cls%d" % i) % 2],      # (not i % 2: `delete` follows i % 4)
+                      "link": ["copy", "hardlink", "symlink"][i % 3] if i % 7 == 0 else "copy"})
     # prior workspaces holding dangling symbolic links (links whose cache object is gone)
     base = len(cases)
     for j in range(max(200, n // 6)):
